@@ -335,6 +335,29 @@ func (w *wworld) checkLog(v dbView) {
 			}
 		}
 	}
+	// C17: a datatype document only lists clients registered in its own collection, and its operations
+	// carry its collection number
+	clientCol := map[string]uint64{}
+	for _, cd := range w.e.fm.Dump("orda")["-_-Clients"] {
+		clientCol[bget(cd, "_id").(string)] = bnum(bget(cd, "colNum"))
+	}
+	for _, d := range v.dts {
+		du := bget(d, "_id").(string)
+		col := bnum(bget(d, "colNum"))
+		for _, f := range []string{"rwClients", "roClients"} {
+			cl, _ := bget(d, f).(bson.D)
+			for _, e := range cl {
+				if cc, ok := clientCol[e.Key]; ok && cc != col {
+					w.c.Violate("C17", "foreign-client-in-datatype", fmt.Sprintf("datatype %s of collection #%d lists client %s, which is registered in collection #%d", du, col, e.Key, cc), w.desc)
+				}
+			}
+		}
+		for _, o := range v.ops {
+			if bget(o, "duid") == du && bnum(bget(o, "colNum")) != col {
+				w.c.Violate("C17", "operation-in-foreign-collection", fmt.Sprintf("an operation of datatype %s (collection #%d) is stored under collection #%d", du, col, bnum(bget(o, "colNum"))), w.desc)
+			}
+		}
+	}
 	for du := range byDuid {
 		if !known[du] {
 			w.c.Violate("C06", "orphan-operations", fmt.Sprintf("operations are stored under %s which is not a datatype", du), w.desc)
@@ -500,6 +523,17 @@ func (w *wworld) sync(x *wdt, fault int) {
 	if fault != 2 && isErr && e2 == ne {
 		w.c.Violate("C16", "error-not-delivered", fmt.Sprintf("an error response for key %q was not reported to the error handler", x.key), w.desc)
 		w.c.Violate("C13", "error-not-delivered", fmt.Sprintf("an error response for key %q was not reported to the error handler", x.key), w.desc)
+	}
+	// C13: a new subscriber's first state is the datatype's state at the log position it subscribed at
+	if fault != 2 && !isErr && wasDue && resp.GetPushPullPackOption().HasSubscribeBit() && r.dt.GetState() == model.StateOfDatatype_SUBSCRIBED &&
+		len(r.dt.CreatePushPullPack().Operations) == 0 && !w.dirty {
+		if sv, send, ok := w.serverView(x); ok && send == r.dt.CreatePushPullPack().CheckPoint.Sseq {
+			cv, _ := r.view()
+			if sv != cv {
+				w.c.Violate("C13", "first-state-differs", fmt.Sprintf("key %q: a new subscriber at log position %d exposes %s but the log replays to another state", x.key, send, r.viewJSON()), w.desc)
+			}
+			w.c.Count("first-state-compared")
+		}
 	}
 	if s2-ns > 1 {
 		w.c.Violate("C13", "state-change-reported-twice", fmt.Sprintf("the state-change handler was called %d times for one response", s2-ns), w.desc)
@@ -770,6 +804,58 @@ func (w *wworld) raw(x *wdt) {
 	}
 }
 
+// serverView rebuilds x's datatype from the stored log the way the server does; returns the view and the end of the log
+func (w *wworld) serverView(x *wdt) (string, uint64, bool) {
+	colDoc, _ := w.e.mgr.Mongo.GetCollection(w.e.ctx, x.owner.col)
+	if colDoc == nil {
+		return "", 0, false
+	}
+	ddoc, _ := w.e.mgr.Mongo.GetDatatypeByKey(w.e.ctx, colDoc.Num, x.key)
+	if ddoc == nil || ddoc.DUID != x.rep.dt.GetDUID() {
+		return "", 0, false
+	}
+	sd, last, err := snapshot.NewManager(w.e.ctx, w.e.mgr, ddoc, colDoc).GetLatestDatatype()
+	if err != nil {
+		return "", 0, false
+	}
+	return gVal(sd.GetSnapshot().ToJSON()), last, true
+}
+
+// burst: several exchanges of x in a row lose their responses while another client keeps pushing; then
+// the held responses arrive, in order or reversed — partially overlapping answers
+func (w *wworld) burst(x *wdt) {
+	var other *wdt
+	for _, o := range w.dts {
+		if o != x && o.key == x.key && o.owner.col == x.owner.col && o.rep.dt.GetState() == model.StateOfDatatype_SUBSCRIBED {
+			other = o
+		}
+	}
+	if other == nil || x.rep.dt.GetState() != model.StateOfDatatype_SUBSCRIBED {
+		w.sync(x, 0)
+		return
+	}
+	n := 2 + w.c.Rng.Intn(2)
+	for j := 0; j < n; j++ {
+		w.local(other)
+		w.sync(other, 0)
+		if w.c.Rng.Intn(2) == 0 {
+			w.local(x)
+		}
+		w.sync(x, 2)
+	}
+	held := x.held
+	x.held = nil
+	if w.c.Rng.Intn(3) == 0 {
+		for i, j := 0, len(held)-1; i < j; i, j = i+1, j-1 {
+			held[i], held[j] = held[j], held[i]
+		}
+	}
+	for _, h := range held {
+		w.applyResp(x, h, "delayed response")
+	}
+	w.c.Count("ev-burst")
+}
+
 // ---------- C05 oracle at quiescence ----------
 func (w *wworld) quiesce() {
 	for round := 0; round < 2; round++ {
@@ -886,7 +972,9 @@ func sliceWire(c *Ctx, kind string) {
 					if faults && c.Rng.Intn(3) == 0 {
 						f = 1 + c.Rng.Intn(3)
 					}
-					if faults && len(x.held) > 0 && c.Rng.Intn(3) == 0 {
+					if faults && c.Rng.Intn(8) == 0 {
+						w.burst(x)
+					} else if faults && len(x.held) > 0 && c.Rng.Intn(3) == 0 {
 						// a response held back earlier arrives now, after later exchanges
 						h := x.held[0]
 						x.held = x.held[1:]
